@@ -3,6 +3,8 @@ package twin
 import (
 	"fmt"
 	"go/ast"
+	"go/types"
+	"regexp"
 	"os"
 	"path/filepath"
 	"sort"
@@ -34,7 +36,7 @@ func weightedImage(src, dst string) bool {
 // renaming. The pairs are mechanical copies; a one-sided edit of Next, Len
 // or Reset is exactly the kind of slip the (default-build) tests miss in
 // the tag-selected files.
-func runWeightedSiblings(res *core.Result, dir string) {
+func runWeightedSiblings(res *core.Result, dir string, stateOnly bool) {
 	ents, err := os.ReadDir(filepath.Join(core.RepoDir, dir))
 	if err != nil {
 		res.Brokenf("TWIN.sibling: %v", err)
@@ -117,6 +119,39 @@ func runWeightedSiblings(res *core.Result, dir string) {
 						res.Count("weighted_sibling_members_unified", 1)
 					}
 				}
+				if stateOnly {
+					var ms []string
+					for m := range members[t] {
+						ms = append(ms, m)
+					}
+					sort.Strings(ms)
+					for _, mname := range ms {
+						a := members[t][mname]
+						var b *ast.FuncDecl
+						for cand, fd := range members[w] {
+							if weightedImage(mname, cand) {
+								b = fd
+							}
+						}
+						if b == nil || a.Recv == nil || b.Recv == nil {
+							continue
+						}
+						res.Obligations++
+						res.Count("sibling_method_pairs", 1)
+						ua, ub := stateUpdates(a), stateUpdates(b)
+						res.Count("sibling_state_updates", len(ua))
+						if strings.Join(ua, "\n") != strings.Join(ub, "\n") {
+							res.Add(core.Finding{
+								Rule: "TWIN.sibstate",
+								Key:  fmt.Sprintf("TWIN.sibstate|%s/%s|%s~%s|%s", dir, n, t, w, mname),
+								Pos:  core.Pos(b.Pos()), Func: w + "." + mname,
+								Msg: fmt.Sprintf("%s.%s and its sibling %s.%s in %s/%s update the receiver's state differently: {%s} vs {%s}",
+									t, mname, w, b.Name.Name, dir, n, strings.Join(ua, "; "), strings.Join(ub, "; ")),
+							})
+						}
+					}
+					continue
+				}
 				cmp("type", typeDecl[t], typeDecl[w])
 				var ms []string
 				for m := range members[t] {
@@ -137,7 +172,7 @@ func runWeightedSiblings(res *core.Result, dir string) {
 							Rule: "TWIN.sibling",
 							Key:  fmt.Sprintf("TWIN.sibling|%s/%s|%s~%s|%s", dir, n, t, w, mname),
 							Pos:  core.Pos(a.Pos()), Func: w + "." + mname,
-							Msg:  fmt.Sprintf("%s has method %s but its sibling %s has no counterpart", t, mname, w),
+							Msg: fmt.Sprintf("%s has method %s but its sibling %s has no counterpart", t, mname, w),
 						})
 						continue
 					}
@@ -169,4 +204,66 @@ func unifyWeighted(u *unifier, a, b ast.Node) bool {
 		return false, false
 	}
 	return u.Nodes(a, b)
+}
+
+var weightedRe = regexp.MustCompile(`weighted([A-Z])`)
+
+// stateUpdates returns the sorted, Weighted-normalised texts of the
+// statements of a method that assign to (or increment) the receiver's
+// fields.
+func stateUpdates(fd *ast.FuncDecl) []string {
+	if fd.Recv == nil || len(fd.Recv.List) == 0 || len(fd.Recv.List[0].Names) == 0 {
+		return nil
+	}
+	recv := fd.Recv.List[0].Names[0].Name
+	rooted := func(e ast.Expr) bool {
+		for {
+			switch x := e.(type) {
+			case *ast.SelectorExpr:
+				e = x.X
+				continue
+			case *ast.IndexExpr:
+				e = x.X
+				continue
+			case *ast.ParenExpr:
+				e = x.X
+				continue
+			case *ast.StarExpr:
+				e = x.X
+				continue
+			}
+			break
+		}
+		id, ok := e.(*ast.Ident)
+		return ok && id.Name == recv
+	}
+	norm := func(s string) string {
+		s = weightedRe.ReplaceAllStringFunc(s, func(m string) string { return strings.ToLower(m[len(m)-1:]) })
+		return strings.ReplaceAll(s, "Weighted", "")
+	}
+	var out []string
+	ast.Inspect(fd.Body, func(n ast.Node) bool {
+		switch x := n.(type) {
+		case *ast.AssignStmt:
+			for i, l := range x.Lhs {
+				if _, isID := l.(*ast.Ident); isID || !rooted(l) {
+					continue
+				}
+				rhs := ""
+				if len(x.Rhs) == len(x.Lhs) {
+					rhs = types.ExprString(x.Rhs[i])
+				} else if len(x.Rhs) == 1 {
+					rhs = types.ExprString(x.Rhs[0])
+				}
+				out = append(out, norm(types.ExprString(l)+" "+x.Tok.String()+" "+rhs))
+			}
+		case *ast.IncDecStmt:
+			if rooted(x.X) {
+				out = append(out, norm(types.ExprString(x.X)+x.Tok.String()))
+			}
+		}
+		return true
+	})
+	sort.Strings(out)
+	return out
 }
